@@ -165,7 +165,7 @@ func stringOpts(pool []string, pats []pat, wrap func(string, *gen) any) func(g *
 			{kindP, map[string]any{"type": "string", "pattern": pt.re}, wrapAll(pt.good, g), wrapAll(pt.bad, g)},
 			{"nofilter", nil, wrapAll(pool, g), nil},
 		}
-		if g.p(0.25) {
+		if g.p(0.15) {
 			opts = append(opts,
 				filterOpt{"type-mismatch", map[string]any{"type": "number"}, anys(5.0), wrapAll(pool, g)},
 				filterOpt{"type-mismatch", map[string]any{"type": "boolean"}, anys(true), wrapAll(pool, g)},
@@ -211,7 +211,7 @@ func numberOpts(g *gen) []filterOpt {
 		{"nofilter", nil, nums, nil},
 		{"number+pattern", map[string]any{"type": "number", "pattern": "^2"}, nums, anys("2")},
 	}
-	if g.p(0.4) {
+	if g.p(0.2) {
 		opts = append(opts,
 			filterOpt{"number-const-string", map[string]any{"type": "number", "const": "2"}, nil, anys(2.0, "2")},
 			filterOpt{"number-enum-string", map[string]any{"type": "number", "enum": anys("1", "2")}, nil, anys(1.0, "1")},
@@ -227,7 +227,7 @@ func boolOpts(g *gen) []filterOpt {
 		{"type:boolean", map[string]any{"type": "boolean"}, anys(true, false), anys("true", 1.0)},
 		{"nofilter", nil, anys(true, false), nil},
 	}
-	if g.p(0.4) {
+	if g.p(0.2) {
 		opts = append(opts,
 			filterOpt{"bool-const-string", map[string]any{"type": "boolean", "const": "true"}, nil, anys(true, "true")},
 			filterOpt{"type-mismatch", map[string]any{"type": "string"}, anys("true"), anys(true)},
@@ -338,7 +338,7 @@ func (g *gen) subjectPaths(keys []any, subject int) []string {
 	c := compact[g.weighted(6, 1, 1)]
 	i := indexed[g.weighted(6, 1)]
 	var out []string
-	switch g.weighted(12, 3, 3) {
+	switch g.weighted(14, 2, 2) {
 	case 0:
 		out = []string{c, i}
 		if g.p(0.4) {
@@ -411,7 +411,7 @@ func (g *gen) field(idPrefix string, n int) (fieldSpec, map[string]any) {
 			fs.paths = []string{fmt.Sprintf(`$[%q]`, a.name)}
 		}
 	} else {
-		if g.p(0.06) {
+		if g.p(0.03) {
 			fs.subject = 1
 		}
 		fs.paths = g.subjectPaths(a.keys, fs.subject)
@@ -934,7 +934,7 @@ func (g *gen) wallet(ds *defSpec) *wallet {
 		w.class = "empty"
 		return w
 	}
-	complete := g.p(0.45) // steer towards wallets that can satisfy everything
+	complete := g.p(0.7) // steer towards wallets that can satisfy everything
 	for _, d := range ds.descs {
 		roll := g.weighted(55, 27, 18)
 		if complete && roll != 0 && g.p(0.85) {
